@@ -329,7 +329,7 @@ class _Walker:
                     or (isinstance(st.value, ast.Call) and W.call_name(st.value) in ("list", "set", "dict")) \
                     or (cur is not None and cur.typ in ("list", "set", "dict", "defaultdict"))
                 arrayish = self.f.module.rel == "wfsa/field_wfsa.py" and cur is not None and cur.typ not in ("immutable",) \
-                    and not isinstance(st.value, ast.Constant) and cur.kind == DERIVED and cur.root in ("self", "cache", "unknown") \
+                    and cur.kind == DERIVED and cur.root in ("self", "cache", "unknown") \
                     and isinstance(st.op, (ast.Div, ast.Mult, ast.Add, ast.Sub)) and self._maybe_array(t.id)
                 if (containerish or arrayish) and cur is not None:
                     self.effect(st, "augname", t, cur)
